@@ -25,6 +25,7 @@ type Profile struct {
 	PBatch             int // probability of a batch record (out of 100)
 	MaxBatch           int
 	PCancel            int // weight of cancel steps (out of 100 steps)
+	PRelease           int // weight of release steps while something is parked (out of 100 steps; 0 = 40)
 	PBurst             int // probability that a step races with the next one
 	PObey              int // probability that a parking handler returns when cancelled
 	Builtins           bool
@@ -172,6 +173,10 @@ func ServerScenario(t *rapid.T, p Profile) sim.Scenario {
 	if len(outcomes) == 0 {
 		outcomes = []string{"ok"}
 	}
+	prel := p.PRelease
+	if prel == 0 {
+		prel = 40
+	}
 	for i := 0; i < n; i++ {
 		var step sim.Step
 		roll := rapid.IntRange(0, 99).Draw(t, "op")
@@ -198,7 +203,7 @@ func ServerScenario(t *rapid.T, p Profile) sim.Scenario {
 				st.window = map[string]bool{}
 			}
 			step = sim.Step{Op: "cancel", ID: id}
-		case roll < p.PCancel+40 && len(st.Pending) > 0:
+		case roll < p.PCancel+prel && len(st.Pending) > 0:
 			j := rapid.IntRange(0, len(st.Pending)-1).Draw(t, "which")
 			k := st.Pending[j]
 			st.Pending = append(st.Pending[:j:j], st.Pending[j+1:]...)
